@@ -459,6 +459,25 @@ def _retype(repo, rep):
     rep.check(deco is not None, "R12.3", site, "a handler decorates the "
               "exception", construct="decorating-handler", where=wh)
     if deco is not None:
+        # the handler's own look-ups cannot fail (nor consume what they
+        # read): the recorded positions are fetched with .get(); a
+        # subscript or a pop() without default raises KeyError when nothing
+        # was recorded, and that KeyError would replace the exception
+        risky = []
+        for n in ast.walk(deco):
+            if isinstance(n, ast.Subscript) and src(n.value) in (
+                    "rcontext", "econtext") and isinstance(
+                        n.ctx, ast.Load):
+                risky.append(src(n))
+            elif isinstance(n, ast.Call) and isinstance(
+                    n.func, ast.Attribute) and src(n.func.value) in (
+                        "rcontext", "econtext") and n.func.attr != "get":
+                risky.append(src(n))
+        rep.check(not risky, "R12.3", site, "the decorating handler reads "
+                  "the render context with .get() only (no look-up of its "
+                  "own can raise or remove an entry)",
+                  construct="handler-lookups-total", where=wh,
+                  detail=str(risky))
         ty = src(deco.type) if deco.type is not None else "<bare>"
         rep.check(ty == "Exception", "R12.3", site,
                   "the handler that re-types the exception (adds RenderError, "
